@@ -15,6 +15,7 @@ typedef struct {
 	size_t octlen;
 	int kform;              /* oct only: how k is written (KF_*) */
 	int npad;               /* RSA only: leading zero octets put in front of n (and the private members) */
+	const char *jwkalg;     /* C09 cells: the JWK names this algorithm itself and setkey is given JWT_ALG_NONE */
 } pk_t;
 /* k written canonically; padded with '=' to a multiple of four; followed by "===="; followed by '=' and 80 more characters
  * (the decoder stops at the first '=': the key is still the octlen bytes ahead of it) */
@@ -865,8 +866,9 @@ static long n_floor_ok, n_floor_refused;
 /* one (key, alg) cell: generate with the private/symmetric key, verify a reference-made token */
 static void floor_cell(const pk_t *p, jwt_alg_t alg, int expect_usable, int completeness)
 {
-	jwk_set_t *set = load_pk(p, 1, NULL);
+	jwk_set_t *set = load_pk(p, 1, p->jwkalg);
 	const jwk_item_t *item = set ? jwks_item_get(set, 0) : NULL;
+	jwt_alg_t setalg = p->jwkalg ? JWT_ALG_NONE : alg;
 	if (!item) {
 		vf_violation("harness|no-item", "no item for %s", p->name);
 		jwks_free(set);
@@ -876,7 +878,7 @@ static void floor_cell(const pk_t *p, jwt_alg_t alg, int expect_usable, int comp
 	vf_obs(item_err);
 	/* ---- generate ---- */
 	jwt_builder_t *b = jwt_builder_new();
-	int src = jwt_builder_setkey(b, alg, item);
+	int src = jwt_builder_setkey(b, setalg, item);
 	char *out = src ? NULL : jwt_builder_generate(b);
 	vf_obs(out != NULL);
 	if (out && !expect_usable)
@@ -906,7 +908,7 @@ static void floor_cell(const pk_t *p, jwt_alg_t alg, int expect_usable, int comp
 	if (!tok)
 		tok = make_token(p, &h, SK_GARBAGE);
 	jwt_checker_t *c = jwt_checker_new();
-	int crc = jwt_checker_setkey(c, alg, item);
+	int crc = jwt_checker_setkey(c, setalg, item);
 	int r = crc ? 1 : jwt_checker_verify(c, tok);
 	vf_obs(r == 0);
 	if (r == 0 && !expect_usable)
@@ -971,6 +973,11 @@ static void enumerate_c09(void)
 				int need = HS[a] == JWT_ALG_HS256 ? 32 : HS[a] == JWT_ALG_HS384 ? 48 : 64;
 				/* completeness (a key at or above the floor works) is demanded for the canonical and the padded form only */
 				floor_cell(&p, HS[a], len >= need, kf <= KF_PADDED);
+				/* the same key naming the algorithm in its own "alg" member, pinned through setkey(JWT_ALG_NONE, key) */
+				if (kf == KF_CANON) {
+					p.jwkalg = tok_alg_names[HS[a]];
+					floor_cell(&p, HS[a], len >= need, 1);
+				}
 			}
 	static const char *rsas[] = { "rsa512", "rsa1024", "rsa1536", "rsa2047", "rsa2048a", "rsa2048b", "rsa2056", "rsa3072", "rsa4096", "rsa2048e3", "rsa2048e33", "rsapss2048" };
 	for (unsigned k = 0; k < sizeof rsas / sizeof *rsas; k++)
@@ -983,6 +990,8 @@ static void enumerate_c09(void)
 			rc_rng_reseed(vf_case_index());
 			/* an RSA-PSS key is restricted to PS*: no completeness demand for RS* on it; the PEM of the pool's
 			 * RSA-PSS key only becomes an RSA-PSS EVP_PKEY through an alg attribute, which this JWK lacks */
+			floor_cell(&p, RSA[a], p.vk->bits >= 2048, 1);
+			p.jwkalg = tok_alg_names[RSA[a]];
 			floor_cell(&p, RSA[a], p.vk->bits >= 2048, 1);
 		}
 	/* the same moduli written with leading zero octets: the size of an RSA key is the size of the number, not of its encoding */
@@ -1011,6 +1020,8 @@ static void enumerate_c09(void)
 			int usable = p.vk->bits == rc_es_bits(ES[a]);
 			/* GnuTLS implements neither ES256K nor secp256k1 (C12 scopes them out): no completeness demand there */
 			int complete = !(gnutls && (ES[a] == JWT_ALG_ES256K || !strcmp(p.vk->crv, "secp256k1")));
+			floor_cell(&p, ES[a], usable, complete);
+			p.jwkalg = tok_alg_names[ES[a]];
 			floor_cell(&p, ES[a], usable, complete);
 		}
 	/* EC keys on curves outside JOSE, which the importer passes through to libcrypto by name: the size rule applies to them
